@@ -115,7 +115,7 @@ func (p *MultilineAction) Do(event *pipeline.Event) pipeline.ActionResult {
 	predictedLen := p.eventSize + predictionLookahead
 	shouldSplit := predictedLen > p.config.SplitEventSize
 	logFragmentLen := len(logFragment)
-	isEnd := logFragment[logFragmentLen-3:logFragmentLen-1] == newLine
+	isEnd := endsWithNewLine(logFragment)
 	if !isEnd && !shouldSplit {
 		sizeAfterAppend := len(p.eventBuf) + len(logFragment)
 		// check buffer size before append
@@ -222,6 +222,21 @@ func (p *MultilineAction) Do(event *pipeline.Event) pipeline.ActionResult {
 	p.resetLogBuf()
 
 	return pipeline.ActionPass
+}
+
+// endsWithNewLine reports whether the escaped (and quoted) string ends with
+// an escaped line break. The `n` must be escaped by an odd number of backslashes:
+// `\\n` is a backslash followed by the letter n, not a line break.
+func endsWithNewLine(escaped string) bool {
+	l := len(escaped)
+	if l < len(newLine)+2 || escaped[l-3:l-1] != newLine {
+		return false
+	}
+	backslashes := 0
+	for i := l - 3; i > 0 && escaped[i] == '\\'; i-- {
+		backslashes++
+	}
+	return backslashes%2 == 1
 }
 
 func (p *MultilineAction) resetLogBuf() {
